@@ -74,7 +74,7 @@ impl EntityId {
 
 impl GUID {
     // re-declared with its real value (built from the two exec consts above)
-    pub exec const GUID_UNKNOWN: GUID ensures prefix_is_unknown(GUID::GUID_UNKNOWN.prefix) {
+    pub exec const GUID_UNKNOWN: GUID ensures prefix_is_unknown(GUID::GUID_UNKNOWN.prefix), forall|p: GuidPrefix| prefix_is_unknown(p) <==> p == GUID::GUID_UNKNOWN.prefix {
         GUID { prefix: GuidPrefix::UNKNOWN, entity_id: EntityId::UNKNOWN }
     }
 }
